@@ -81,6 +81,8 @@ type finding struct {
 	// TreeContains: the violation matches only if the rendered spec of the
 	// run contains every one of these substrings.
 	TreeContains []string `json:"tree_contains,omitempty"`
+	// WhereContains: the violation's location must contain each substring.
+	WhereContains []string `json:"where_contains,omitempty"`
 	// ObservedContains: the observed value must contain each substring.
 	ObservedContains []string `json:"observed_contains,omitempty"`
 	Commit           string   `json:"commit,omitempty"`
@@ -126,6 +128,11 @@ func (k *finding) applies(v props.Violation, tree string) bool {
 	}
 	for _, c := range k.ObservedContains {
 		if !strings.Contains(v.Observed, c) {
+			return false
+		}
+	}
+	for _, c := range k.WhereContains {
+		if !strings.Contains(v.Where, c) {
 			return false
 		}
 	}
